@@ -74,6 +74,15 @@ pub fn exec(store: &mut HashMap<String, MarkerTree>, cmd: &str) -> String {
             let dl = dnf.iter().map(|c| c.iter().map(expr_line).collect::<Vec<_>>().join(" & ")).collect::<Vec<_>>().join(" | ");
             format!("{}\x1f{}\x1f{}", dump(m), m.try_to_string().map(|t| hex(&t)).unwrap_or("none".into()), dl)
         }
+        // `bx n <vkey index> <VOPS token> <version>`: a version comparison built through the typed constructor
+        // (`MarkerTree::expression`), including the operators the marker grammar cannot spell (`===`)
+        "bx" => {
+            let k: usize = p[2].parse().unwrap();
+            let sym = VOPS.iter().find(|o| o.0 == p[3]).map(|o| (o.1, o.2)).unwrap();
+            let spec = pep440_rs::VersionSpecifier::from_str(&format!("{}{}{}", sym.0, p[4], if sym.1 { ".*" } else { "" })).unwrap();
+            store.insert(p[1].to_string(), MarkerTree::expression(pep508_rs::MarkerExpression::Version { key: VKEYS[k].clone(), specifier: spec }));
+            "ok".into()
+        }
         // `dj a b`: is_disjoint both ways, is_true / is_false of the conjunction
         "dj" => {
             let (a, b) = (&store[p[1]], &store[p[2]]);
@@ -337,7 +346,25 @@ pub fn run(out: &mut Out, tier: &str, seed: u64, prop: &str) {
                         other => other.clone(),
                     }
                 }
+                // one literal changed (the first one met): a different condition, so a different marker — the order must see
+                // the literal of EVERY node kind (version bound, string bound, `in` / contains value, extra name)
+                // the same marker with every `extra` comparison built as the verbatim (`Arbitrary`) variant of the public
+                // builder, even for valid names: another variable of the diagram, rendered identically
+                fn build_arbitrary(t: &Term) -> MarkerTree {
+                    match t {
+                        Term::X(neg, text) => MarkerTree::expression(pep508_rs::MarkerExpression::Extra {
+                            operator: if *neg { pep508_rs::ExtraOperator::NotEqual } else { pep508_rs::ExtraOperator::Equal },
+                            name: pep508_rs::MarkerValueExtra::Arbitrary(text.clone()),
+                        }),
+                        Term::And(a, b) => { let mut x = build_arbitrary(a); x.and(build_arbitrary(b)); x }
+                        Term::Or(a, b) => { let mut x = build_arbitrary(a); x.or(build_arbitrary(b)); x }
+                        Term::Not(a) => build_arbitrary(a).negate(),
+                        other => other.build(),
+                    }
+                }
                 let mut extra_terms: Vec<Term> = vec![
+                    Term::S(3, 8, "arm".into()), Term::S(3, 9, "arm".into()), Term::S(1, 6, "nt posix".into()), Term::S(1, 7, "nt posix".into()), Term::X(false, "foo".into()), Term::X(true, "foo".into()),
+                    Term::and(Term::V(2, 5, "3.8".into()), Term::and(Term::S(3, 8, "arm".into()), Term::X(false, "simd".into()))),
                     Term::S(1, 0, "posix".into()), Term::S(12, 1, "win32".into()), Term::S(3, 4, "x86_64".into()), Term::S(5, 0, "CPython".into()), Term::S(10, 3, "1".into()),
                     Term::and(Term::V(1, 5, "3.8".into()), Term::S(12, 1, "win32".into())),
                     Term::or(Term::S(1, 0, "nt".into()), Term::and(Term::X(false, "dev".into()), Term::S(5, 0, "PyPy".into()))),
@@ -354,6 +381,21 @@ pub fn run(out: &mut Out, tier: &str, seed: u64, prop: &str) {
                         if ab != ba.reverse() { out.oracle_fail("C16", "cmp is not antisymmetric", input.clone()); }
                         if x == y && hash_of(&x) != hash_of(&y) { out.oracle_fail("C16", "equal markers hash differently", input.clone()); }
                         out.stat(if x == y { "c16.twin_same" } else { "c16.twin_differs" });
+                    }
+                    let Some(x) = crate::algebra::try_build(out, "C16", t) else { return };
+                    let mut done = false;
+                    let lt = crate::algebra::lit_twin(t, &mut done);
+                    let mut others: Vec<(String, MarkerTree, &str)> = Vec::new();
+                    if done { if let Some(y) = crate::algebra::try_build(out, "C16", &lt) { others.push((lt.line(), y, "one literal changed")); } }
+                    if let Ok(y) = std::panic::catch_unwind(std::panic::AssertUnwindSafe(|| build_arbitrary(t))) { others.push((format!("{} [extras built as Arbitrary]", t.line()), y, "extras built as the verbatim variant")); }
+                    for (line, y, class) in others {
+                        out.evaluations += 1;
+                        let (ab, ba) = (x.cmp(&y), y.cmp(&x));
+                        let input = serde_json::json!({"a": t.line(), "b": line, "class": class});
+                        if (ab == std::cmp::Ordering::Equal) != (x == y) { out.oracle_fail("C16", "cmp returns Equal for != markers (or not Equal for == markers)", input.clone()); }
+                        if ab != ba.reverse() { out.oracle_fail("C16", "cmp is not antisymmetric", input.clone()); }
+                        if x == y && hash_of(&x) != hash_of(&y) { out.oracle_fail("C16", "equal markers hash differently", input.clone()); }
+                        out.stat(if x == y { "c16.variant_same" } else { "c16.variant_differs" });
                     }
                 }
             }
@@ -536,8 +578,14 @@ pub fn run(out: &mut Out, tier: &str, seed: u64, prop: &str) {
                         let key = keys[(i + round) % keys.len()];
                         let op = ops[(i * 5 + round) % ops.len()];
                         q.push((format!("a{i}"), format!("{key} {op} '{short}' and os_name == 'posix'")));
-                        warm.push(format!("p w{i} {}", hex(&format!("{key} {op} '{padded}'"))));
+                        if round % 2 == 0 { warm.push(format!("p w{i} {}", hex(&format!("{key} {op} '{padded}'")))); }
                         warm.push(format!("p v{i} {}", hex(&format!("{key} >= '{padded}' or {key} < '{padded}'"))));
+                        // … and through the typed constructor, with the operators only it can express
+                        let kidx = if key == "python_full_version" { 1 } else { 0 };
+                        let tok = match op { ">=" => "ge", "<" => "lt", "==" => "eq", "!=" => "ne", ">" => "gt", _ => "le" };
+                        // (the grammar-less operator first: whichever spelling is interned first is the one that would stick)
+                        if op == "==" || op == "!=" { warm.insert(warm.len().saturating_sub(if round % 2 == 0 { 0 } else { 1 }), format!("bx y{i} {kidx} xeq {padded}")); }
+                        warm.push(format!("bx x{i} {kidx} {tok} {padded}"));
                     }
                     let mut reference: Option<Vec<String>> = None;
                     for (k, wu) in [Vec::new(), warm.clone()].iter().enumerate() {
